@@ -533,6 +533,71 @@ def check_thread_up(eng, run):
     run.ob("C18.wait", f"{runm.short}:event-handed-to-serve_forever", passes)
 
 
+def check_closed_latch_set(eng, run):
+    """standalone server_close(): the closed latch is set on every exit, whether or not the server is running at that moment (it is
+    set directly, or registered on an exit stack that is entered before anything can fail)"""
+    from sa.analyses.must import exits_without
+    sa_ = eng.db.cls(f"{BASE}.BaseStandaloneNetworkServerImpl")
+    fn = _meth(sa_, "server_close")
+    latches = set()
+    for ci_m in sa_.methods.values():
+        if ci_m.name == "serve_forever":
+            for n_ in own_nodes(ci_m.node):
+                if isinstance(n_, ast.If) and any(isinstance(r, ast.Raise) and "ServerClosedError" in ast.unparse(r) for r in n_.body):
+                    for c in ast.walk(n_.test):
+                        if isinstance(c, ast.Call) and isinstance(c.func, ast.Attribute) and c.func.attr == "is_set":
+                            latches.add((dotted(c.func.value) or "").split(".", 1)[-1])
+    if not latches:
+        raise AnalysisError("anchor vanished: closed latch tested by the standalone serve_forever()")
+    me = fn.self_name
+
+    def sets(node):
+        if not isinstance(node, ast.Call) or not isinstance(node.func, ast.Attribute):
+            return False
+        if node.func.attr == "set" and (dotted(node.func.value) or "").split(".", 1)[-1] in latches and (dotted(node.func.value) or "").startswith(me + "."):
+            return True
+        if node.func.attr in ("callback", "push") and node.args and isinstance(node.args[0], ast.Attribute) and node.args[0].attr == "set" \
+                and (dotted(node.args[0].value) or "").split(".", 1)[-1] in latches:
+            return True  # registered on an exit stack: runs on every exit of the enclosing with
+        return False
+
+    bad, sites = exits_without(eng, fn, sets, raising=lambda node: isinstance(node, ast.Call) and not sets(node) and not (isinstance(node.func, ast.Attribute) and node.func.attr in ("get", "ExitStack")))
+    for label, tr in bad[:1]:
+        run.finding("C18.latch", fn, _stmt_at(fn, tr[-1]) if tr else fn.node, f"server_close() can leave ({label}) without the closed latch `{sorted(latches)[0]}` being set: a server closed while it is "
+                    "running forgets that it was closed and serve_forever() serves again instead of raising ServerClosedError", tr)
+    run.ob("C18.latch", f"{fn.short}:closed-latch-set-on-every-exit", not bad and sites > 0, set_sites=sites)
+
+
+def check_close_not_behind_activation(eng, run):
+    """server_close() must be able to cancel an activation in progress: at the point where it cancels the factory scope it holds none of
+    the locks that server_activate() holds while it awaits the listeners factory"""
+    aa = eng.db.cls(f"{BASE}.BaseAsyncNetworkServerImpl")
+    act, sc = _meth(aa, "server_activate"), _meth(aa, "server_close")
+    locks_a = {a.replace("self.", act.self_name + ".", 1) for a in _lock_attrs(aa)}
+    an = LockHeld(eng, locks_a, lambda node, a_: isinstance(node, ast.Await) and a_.engine.summaries.atom_may_suspend(act, node) and a_.interp is not None
+                  and any(isinstance(it.optional_vars, ast.Attribute) for it, _ in a_.interp.ctx.with_stack))
+    Interp(an, act).run()
+    held_in_activation = set()
+    for node, held in an.sites:
+        held_in_activation |= {h.split(".", 1)[1] for h in held_names(held)}
+    if not an.sites:
+        raise AnalysisError("anchor vanished: awaited listeners factory inside the cancel scope of server_activate()")
+    locks_c = {a.replace("self.", sc.self_name + ".", 1) for a in _lock_attrs(aa)}
+    an2 = LockHeld(eng, locks_c, lambda node, a_: isinstance(node, ast.Call) and isinstance(node.func, ast.Attribute) and node.func.attr == "cancel" and "scope" in (dotted(node.func.value) or ""))
+    Interp(an2, sc).run()
+    if not an2.sites:
+        raise AnalysisError("anchor vanished: factory-scope cancel in server_close()")
+    bad = []
+    for node, held in an2.sites:
+        common = {h.split(".", 1)[1] for h in held_names(held)} & held_in_activation
+        if common:
+            bad.append((node, common))
+    for node, common in bad[:1]:
+        run.finding("C18.order", sc, _stmt_at(sc, node.lineno), f"server_close() cancels the activation while holding {sorted(common)}, which server_activate() holds for as long as the listeners factory "
+                    "runs: the cancel is only reached after the activation finished - closing during start-up blocks (for ever with a stuck factory) or trips the set-up guard")
+    run.ob("C18.order", f"{sc.short}:cancel-reachable-during-activation", not bad, held_by_activation=sorted(held_in_activation))
+
+
 def run(eng, run):
     run.not_decided += NOT_DECIDED
     check_order(eng, run)
@@ -541,6 +606,10 @@ def run(eng, run):
     check_refuse(eng, run)
     check_latch(eng, run)
     check_snapshot(eng, run)
+    check_closed_latch_set(eng, run)
+    check_close_not_behind_activation(eng, run)
+    from sa.analyses.arms import check_shared_future_awaits
+    check_shared_future_awaits(eng, run, "C18.tear")
     check_tear(eng, run)
     check_portal(eng, run)
 
@@ -626,4 +695,18 @@ BENIGN += [
     Variant("is-up-event-set-in-both-arms", _THR,
             lambda fn: setattr(fn, "body", fn.body[:-1] + ast.parse("try:\n    self.__server.serve_forever(is_up_event=self.__is_up_event)\nexcept BaseException:\n    self.__is_up_event.set()\n    raise\nelse:\n    self.__is_up_event.set()").body),
             why="event set explicitly on both the error and the normal exit"),
+]
+
+
+_SCLOSE = _SA + ".server_close"
+_ACLOSE = _AA + ".server_close"
+MUTANTS += [
+    Variant("standalone-close-sets-the-latch-only-when-not-running", _SCLOSE,
+            lambda fn: setattr(fn, "body", ast.parse("with self.__close_lock.get():\n    self._run_sync_or_else(lambda portal, server: portal.run_coroutine(server.server_close), self.__is_closed.set)").body), "C18.latch",
+            why="a server closed while running serves again instead of raising ServerClosedError (seed C18-7)"),
+    Variant("async-close-takes-the-activation-lock", _ACLOSE, lambda fn: replace_expr(fn, "self.__server_close_lock", "self.__server_activation_lock"), "C18.order",
+            why="closing during start-up blocks behind the activation it is supposed to cancel (seed C18-8)"),
+    Variant("udp-serve-awaits-the-shared-future-bare", "lowlevel.api_async.backend._asyncio.datagram.listener:DatagramListenerProtocol.serve",
+            lambda fn: replace_expr(fn, "asyncio.shield(self.__serve_forever_fut)", "self.__serve_forever_fut"), "C18.tear",
+            why="shutdown() cancels the protocol's long-lived future: the next serve_forever() stops at once (seed C18-9)"),
 ]
